@@ -15,7 +15,7 @@
 //        Quiescence: pm_thread/pm_coro -- all threads joined (every call is synchronous).  pm_pipeline -- wait
 //        until every submitted message is on the wire AND next_send has reached <before> + <number of messages>
 //        (the increment is the last shared action of send_process, so then the writer thread is idle and its
-//        queue empty); on a deadline of 8 s real time the note NOTQUIET is added.  The same wait follows START
+//        queue empty); after 30 s of real time without any progress of the writer the note NOTQUIET is added.  The same wait follows START
 //        in pm_pipeline (the initiator's Logon is sent by the writer thread), and the START events are put in
 //        the order OUT.. RET.
 //   events of the CONC step: OUT <hex> per message in WIRE order, then "TRET <tid> <r>,<r>,.." per thread (return
@@ -87,7 +87,9 @@ struct Call
 
 class C25Harness : public vsess::SessHarness
 {
-	static int64_t deadline_ns() { return 8000000000LL; }
+	/// give up only after this much REAL time without any progress of the writer thread (the machine may be heavily
+	/// loaded: a fixed deadline for the whole operation produced spurious NOTQUIET notes)
+	static int64_t stall_ns() { return 30000000000LL; }
 
 	/// FIX messages handed to the socket during the current operation (the log is emptied per operation)
 	unsigned long count_out()
@@ -101,13 +103,19 @@ class C25Harness : public vsess::SessHarness
 	/// pm_pipeline: wait until `frames` messages have reached the socket and next_send == want
 	void wait_writer(unsigned long frames, unsigned want)
 	{
-		const int64_t t0(vclock_real_ns());
+		int64_t last(vclock_real_ns());
+		unsigned long seen_out(0);
+		unsigned seen_seq(_ss->next_send());
 		for (;;)
 		{
-			if (_ss->next_send() == want && count_out() >= frames)
+			const unsigned seq(_ss->next_send());
+			const unsigned long out(count_out());
+			if (seq == want && out >= frames)
 				return;
-			if (vclock_real_ns() - t0 > deadline_ns()) { _log.add("NOTQUIET"); return; }
-			vclock_real_sleep_us(100);
+			const int64_t now(vclock_real_ns());
+			if (seq != seen_seq || out != seen_out) { seen_seq = seq; seen_out = out; last = now; }
+			if (now - last > stall_ns()) { _log.add("NOTQUIET"); return; }
+			vclock_real_sleep_us(200);
 		}
 	}
 
